@@ -379,6 +379,53 @@ class C12(Profile):
                                        "link_list", "container", "property"])
 
 
+ALL_MUTATING = dict(STRUCT_WEIGHTS, data_write=2, data_assign=2, data_append=2, data_resize=1)
+
+
+class C11(Profile):
+    """open modes: read-only sessions firing every kind of mutator, overwrite / read-write
+    semantics; the header grid is enumerated in directed()."""
+    prop = "C11"
+    name = "C11"
+    level = "fault_enumeration"
+    weights = dict(ALL_MUTATING, ro_session=9, mode_check=5, restart=2)
+    owned = ("ro_", "mode")
+    reopen_introspect = False
+    never_off = ("restart", "ro_session", "mode_check")
+    fault_kinds = ("ro_session", "mode_check")
+    late_ops = ("ro_session", "mode_check")
+    build_fraction = 0.35
+
+    def tune_knobs(self, k, rng):
+        k["walk_every"] = P.pick(rng, [0, 5])
+        k["dtypes"] = ["float64", "int16", "str"]
+        k["max_extent"] = 3
+        k["n_ops"] = rng.randint(10, 36)
+
+    def directed(self, tier, seed):
+        from .grid import header_grid
+        return header_grid(self, tier, seed)
+
+
+class C17(Profile):
+    """crash (kill) at every flush()/close() return of the history."""
+    prop = "C17"
+    name = "C17"
+    level = "fault_enumeration"
+    weights = dict(ALL_MUTATING, crash=9, flush=2, restart=1, create_property=3, prop_values=3)
+    owned = ("crash_recovery",)
+    reopen_introspect = False
+    never_off = ("crash",)
+    fault_kinds = ("crash_after_flush", "crash_after_close")
+
+    def tune_knobs(self, k, rng):
+        k["walk_every"] = 0
+        k["dtypes"] = rng.sample(P.ALL_DTYPES, 4)
+        k["max_extent"] = rng.randint(2, 6)
+        k["n_ops"] = rng.randint(8, 36)
+        k["comprs"] = rng.sample(["No", "DeflateNormal", "Auto"], rng.randint(1, 3))
+
+
 PROFILES = {}
 
 
@@ -400,3 +447,5 @@ register(C01())
 register(C13())
 register(C19())
 register(C12())
+register(C11())
+register(C17())
